@@ -102,6 +102,14 @@ def main(argv=None):
                 continue
             run = FunctionRun(pack, c, rlimit=rlimit, jobs=a.jobs).run()
             runs.append((pack, c, run))
+        for fn in getattr(pack, "structural", []):
+            # obligations decided by reading the real AST (class bodies, constant tables)
+            from .ctx import ObligationResult
+            sr = FunctionRun(pack, Contract_stub(fn.__name__), rlimit=rlimit)
+            sr.sha, sr.paths, sr.completed_paths, sr.canary_ok = "ast", 1, 1, True
+            for name, ok, detail in fn(pack):
+                sr.results.append(ObligationResult(name, "discharged" if ok else "failed", "ast", 0.0, model={"table": detail}, path=[], detail=detail))
+            runs.append((pack, sr.contract, sr))
         for s in pack.assumptions:
             if s not in assumptions:
                 assumptions.append(s)
@@ -305,6 +313,11 @@ def main(argv=None):
     for l in lines:
         print(l)
     return exit_code
+
+
+def Contract_stub(name):
+    from .contracts import Contract
+    return Contract("(structural)", name)
 
 
 def _z3v():
